@@ -15,6 +15,7 @@ BUDGET = {
     "C07": B(1500, 15000),
     "C08": B(1500, 15000),
     "C20": B(1500, 15000),
+    "C15": B(150, 1500, nondeterministic=True, cpu_limit=120, max_shrink=150),
     "C11": B(1200, 12000),
     "C06": B(700, 10000),
     "C13": B(500, 7000),
@@ -110,6 +111,12 @@ RULE = {
            "frame that returns, after which the parent overwrites 4 KiB of stack, polls isFinished() and joins. Oracle: liveness canary (poisoned in the destructor) intact "
            "when invoked + ASan stack-use-after-return; invoked exactly once; isFinished() true only after the callable returned; join() only after that; Runnable run once "
            "then destroyed once; no copy of the callable outlives the Thread. Non-trivial = the new thread's first instruction ran after start() had returned.",
+    "C15": "rapidcheck generates free-running stress programs (no controlled scheduler) for three families: rwp::Resource (2-6 threads, raw and guard lock/unlock pairs); ThreadPool "
+           "(one owner thread: start(Runnable), start(functor, lvalue), clear, update, stop, restart, getters, real sleeps of 0-5 ms; expiry timeout 0-3 ms and max thread count set "
+           "before the first start; tasks of 0-200 us); ConcurrentSubjectRouter (3-6 threads issuing notify/subscribe/unsubscribe/shrink/exists/depth with atomic-counter callbacks). "
+           "Each program is repeated 3-12 times in one ThreadSanitizer process with generated sched_yield/usleep noise. Oracle: ThreadSanitizer (halt_on_error); a report counts if a frame "
+           "lies in tulz::, a race between harness frames only is an internal error. Non-trivial = >=2 threads were inside tulz calls at the same time (atomic in/out counters); "
+           "pool family: a worker expired or stop() met a live worker. Distinct = distinct case text.",
     "C11": SCHED + "Programs: 2-4 threads, <=28 ops (thorough 44) from {notify(pattern), subscribe(key), unsubscribe (own handle), shrink(pattern), exists(pattern), depth()} on one "
            "ConcurrentSubjectRouter over keys of depth <=2 with names {a,b} and wildcard levels, 0-3 pre-populated subscriptions; callbacks log ENTER/EXIT and yield inside, they never call "
            "the router. Oracle: no user code run under the write lock (callable moved in during subscribe, observer destroyed during unsubscribe) executes while a callback is in progress and "
@@ -147,6 +154,7 @@ ASSUMPTIONS = {
     "C16": ["model uses the same C++ arithmetic; values bounded (no signed overflow, no division by zero)"],
     "C07": VS + ["non-expiring workers (setExpiryTimeout(-1)) and a single owner thread, as quantified"], "C08": VS + ["non-expiring workers, single owner thread"],
     "C20": VS + ["argument lvalues outlive the thread"],
+    "C15": ["ThreadSanitizer is happens-before based: it flags an unordered conflicting pair only when both accesses execute in the run", "free-running OS scheduler: runs are not reproducible from the case alone; the saved case plus the stored report is the reproducible unit"],
     "C11": VS + ["callbacks do not call back into the router (as quantified)", "mute/isValid/invalidation from other threads are not generated: tulz does not lock them and the property does not list them",
                  "a write operation whose lock is released too early but still waits for the lock first is invisible here (no scheduling point inside unsynchronised code): that is C15's business"],
     "C01": VS, "C02": VS + ["critical sections only yield, they never wait for anything else"], "C03": VS, "C12": VS,
